@@ -156,6 +156,29 @@ def run(ctx):
                         ctx.violation(name, "sample_not_reproducible", f"sample_y(random_state={s}) differs between two calls / twin objects", dict(rc, sample_seed=s),
                                       what=f"{name}: sample_y is not reproducible for random_state={s}")
                         break
+                # the explicit seed must win whatever the regressor's own random_state is (None -> numpy's global generator, or an instance)
+                for own in (None, "instance"):
+                    m2 = mk()
+                    if "random_state" not in m2.get_params(deep=False):
+                        break
+                    try:
+                        m2.set_params(random_state=None if own is None else np.random.RandomState(5)).fit(X, y)
+                    except Exception:
+                        break
+                    bad = None
+                    for s in (0, 3):
+                        np.random.seed(11)
+                        a = m2.sample_y(Xq, n_samples=4, random_state=s)
+                        np.random.seed(12)
+                        b = m2.sample_y(Xq, n_samples=4, random_state=s)
+                        if not np.array_equal(a, b):
+                            bad = s
+                            break
+                    if bad is not None:
+                        ctx.violation(name, "sample_not_reproducible", f"sample_y(random_state={bad}) differs between two calls when the regressor's own random_state is {own}",
+                                      dict(rc, sample_seed=bad, own_random_state=str(own)),
+                                      what=f"{name}: sample_y is not reproducible for random_state={bad} (regressor constructed with random_state={own})")
+                        break
     ctx.sample({"component": "_combine_params", "case": terms[0] if terms else None})
     ctx.extra["exhaustive"] = False
 
